@@ -51,14 +51,16 @@ Arguments s_pow10 {N}. Arguments s_exp {N}. Arguments s_ln {N}.
 
 Inductive family := Uniform | LogUniform | Gaussian | LogGaussian.
 
-(* which UniformPrior.value_for is modelled: the code as it is (round after the limit
-   check), or the proposed repair (proposed_fixes/C02-uniform-round-after-check.diff) *)
+(* which UniformPrior.value_for is modelled: [Repaired] = the code as it is since 9c8aefe (the rounding is kept
+   only when it stays within the limits); [Current] = the code before that commit (round after the limit check),
+   kept as the record of the finding *)
 Inductive variant := Current | Repaired.
 
-(* which LogUniformPrior.__init__ is modelled: scale = log10(upper / lower) as coded, or the proposed repair
-   (proposed_fixes/C02-loguniform-ratio-overflow.diff): log10(upper) - log10(lower) when the ratio overflows *)
+(* which LogUniformPrior.__init__ is modelled: [LURatioGuard] = the code as it is since e638353
+   (log10(upper) - log10(lower) when upper / lower overflows); [LUCurrent] = the code before (scale = log10(upper / lower)),
+   kept as the record of the finding *)
 Inductive lu_variant := LUCurrent | LURatioGuard.
-Definition loguniform_variant : lu_variant := LUCurrent.
+Definition loguniform_variant : lu_variant := LURatioGuard.
 
 Inductive transform (N : Type) :=
 | TPhi                              (* phi_transform  = FunctionTransform(ndtri, ndtr, ...) *)
@@ -205,9 +207,10 @@ Section Generic.
   Definition prior_random (var : variant) (p : prior N) (l u r : N) : result N :=
     prior_value_for var p false (random_unit p l u r).
 
-  (* priors whose message is not the one their own constructor would build (Prior.with_limits keeps the
-     message of the prior it was derived from): [pm] supplies the message, [pg] the class (rounding) and the
-     limits of the gate.  For pm = pg these are the functions above. *)
+  (* priors whose message is not the one their own constructor would build: [pm] supplies the message, [pg] the
+     class (rounding) and the limits of the gate.  For pm = pg these are the functions above.  Before d755794
+     Prior.with_limits produced such priors (it kept the message of the prior it was derived from); since that commit
+     every prior the code can build has pm = pg and these definitions only serve the legacy witness. *)
   Definition dprior_value_for (var : variant) (pm pg : prior N) (ignore : bool) (u : N) : result N :=
     post var pg ignore (msg_value_for (message_of pm) u).
   Definition drandom_unit (pm pg : prior N) (l u r : N) : N :=
